@@ -8,8 +8,10 @@ and compared there with the std:: computation that runs the *same* lambda on a h
 
 Variants: libocca `rel` (under ASan the OKL parser is ~50x slower and every item needs a JIT build); the
 driver itself - which instantiates the header-only code under test (array.hpp, typelessArray.hpp,
-range.hpp templates) - is compiled with -fsanitize=address,undefined.  A small smoke subset additionally runs
-against the `asan` libocca variant in the thorough tier.
+range.hpp templates) - is compiled with -fsanitize=undefined (non-recovering).  ASan is not used for the main
+run: every JIT build forks the compiler and a fork of an ASan process costs several times the build itself.
+A smoke subset runs the same driver, ASan+UBSan instrumented, against the `asan` libocca variant in the
+thorough tier.
 """
 import json, os, re, sys, time
 sys.path.insert(0, os.path.dirname(os.path.dirname(os.path.dirname(os.path.abspath(__file__)))))
@@ -30,6 +32,9 @@ RED_OPS = ["rsum2", "rsum2i", "rsum3", "rsum3i", "rsum4", "rsum4i", "rmul2", "rm
            "min", "max", "dot", "indexof", "lastindexof", "index"]
 # std::min_element / std::accumulate without an initial value have no answer on an empty sequence
 NEED_NONEMPTY = {"rmin2", "rmax2", "rband2", "rland2", "min", "max", "dmin", "dmax", "rmin", "rmax"}
+# more than 128 elements: the 128 blocks of typelessCpuReduce / typelessCpuFindIndex hold 2-3 elements each
+BIG_LENGTHS = [129, 300]
+NO_BIG = {"rmul2", "rmul2i", "index"}          # 129! overflows; 'index' is quadratic
 DBL_MAP_OPS = ["dclamp", "dcast", "dmap", "dfill"]
 DBL_RED_OPS = ["dsum", "dmin", "dmax", "ddot"]
 RANGE_MAP_OPS = ["every", "some", "find", "findu", "each", "map", "mapto", "toarray"]
@@ -49,28 +54,53 @@ def range_values(ctor, s, e, st):
     return out
 
 
+def clamp_tiles(ts, ti, n):
+    """the (tile size, tile iterations) pair typelessArray::getMapArrayScope bakes into the kernel for length n"""
+    sts = min(max(1, ts), n)
+    return (sts, min(max(1, ti), -(-n // max(1, sts))))
+
+
 def gen_items(tier):
-    """items in an order that keeps users of the same JIT kernel adjacent (op, device, tile config outermost)"""
+    """-> [(kernel group, estimated JIT builds of the group, item line)], simplest first inside every family.
+    The OpenMP translation of a kernel differs from the Serial one only by the '#pragma omp parallel for' on the
+    outer loops, so the OpenMP device gets a reduced (still exhaustive inside its own bound) sub-space."""
     quick = tier == "quick"
-    lengths = [0, 1, 2, 3, 4, 5] if quick else [0, 1, 2, 3, 4, 5, 6, 7, 8, 9, 16, 17]
-    tiles = [(0, 0), (2, 2)] if quick else [(0, 0)] + [(ts, ti) for ts in (1, 2, 3, 4) for ti in (1, 2, 3)] + [(3, 0)]
-    red_tiles = [(0, 0), (2, 3)]
     items = []
     for dev in ("S", "O"):
-        for fam, mops, rops in (("A", MAP_OPS, RED_OPS), ("D", DBL_MAP_OPS, DBL_RED_OPS)):
+        omp = dev == "O"
+        if quick:
+            lengths = [0, 2, 5] if omp else [0, 1, 2, 3, 4, 5]
+            tiles = [(2, 2)] if omp else [(0, 0), (2, 2)]
+        else:
+            lengths = [0, 1, 2, 3, 4, 5, 6, 7, 8, 9, 16, 17]
+            tiles = [(0, 0)] + [(ts, ti) for ts in (1, 2, 3, 4) for ti in (1, 2, 3)] + [(3, 0)]
+        red_tiles = [(0, 0), (2, 3)]
+        fams = [("A", MAP_OPS, RED_OPS)]
+        if not (quick and omp):
+            fams.append(("D", DBL_MAP_OPS, DBL_RED_OPS))
+        for fam, mops, rops in fams:
             pats = (0, 1, 2) if fam == "A" else (0, 1)
             for op in mops:
                 for ts, ti in tiles:
+                    kc = len(set(clamp_tiles(ts, ti, n) for n in lengths if n))
+                    kc *= {"shl": 2, "shr": 2, "clamp": 3}.get(op, 1)
                     for n in lengths:
                         for pat in pats:
-                            items.append("%s %s %s %d %d %d %d" % (fam, dev, op, n, pat, ts, ti))
+                            items.append(((fam, dev, op, ts, ti), kc, "%s %s %s %d %d %d %d" % (fam, dev, op, n, pat, ts, ti)))
             for op in rops:
                 for ts, ti in red_tiles:
-                    for n in lengths:
+                    for n in lengths + (BIG_LENGTHS if op not in NO_BIG else []):
                         if n == 0 and op in NEED_NONEMPTY:
                             continue
                         for pat in pats:
-                            items.append("%s %s %s %d %d %d %d" % (fam, dev, op, n, pat, ts, ti))
+                            items.append(((fam, dev, op), 2 if op == "index" else 1, "%s %s %s %d %d %d %d" % (fam, dev, op, n, pat, ts, ti)))
+            # lengths beyond the 128 blocks of the CPU reduction / findIndex kernels (same JIT kernels: the length is a
+            # kernel argument) for the block-partitioned operations
+            for op in [o for o in mops if o.startswith(("find", "some"))]:
+                for ts, ti in tiles[-1:]:
+                    for n in BIG_LENGTHS:
+                        for pat in pats:
+                            items.append(((fam, dev, op, ts, ti), 0, "%s %s %s %d %d %d %d" % (fam, dev, op, n, pat, ts, ti)))
         # ranges: start, end in [-3, 6], step in {-3..3}\{0}; plus the 1- and 2-argument constructors
         rng = []
         for s in range(-3, 7):
@@ -83,80 +113,96 @@ def gen_items(tier):
         if quick:
             # quick tier: lengths <= 5 (the kernel variants are the same: start zero/non-zero x step 1/-1/other)
             rng = [r for r in rng if len(range_values(*r)) <= 5]
-        # group by kernel variant: (start == 0, step class)
+        # kernel variant of a range: (start == 0 is a #define, step +-1 is a #define)
         def variant(r):
-            vals = range_values(*r)
             ctor, s, e, st = r
             if ctor == 1:
                 s, st = 0, (1 if e >= 0 else -1)
             elif ctor == 2:
                 st = 1 if e >= s else -1
             return (s == 0, st if st in (1, -1) else 0)
-        rng.sort(key=lambda r: (variant(r), r))
+        rng.sort(key=lambda r: (variant(r), len(range_values(*r)), r))
+        ns_by_variant = {}
+        for q in rng:
+            ns_by_variant.setdefault(variant(q), set()).add(len(range_values(*q)))
+        if quick:
+            rmap = ["find", "each"] if omp else ["every", "find", "each", "map", "mapto"]
+            rred = ["rsum"] if omp else RANGE_RED_OPS
+            rtiles = tiles
+        else:
+            rmap, rred = RANGE_MAP_OPS, RANGE_RED_OPS
+            rtiles = [(0, 0), (2, 2), (3, 2), (4, 3)] if omp else tiles
         for ctor, s, e, st in rng:
-            items.append("R %s length %d %d %d %d 0 0" % (dev, ctor, s, e, st))
-        for op in RANGE_MAP_OPS:
-            for ts, ti in tiles:
+            items.append((("R", dev, "length"), 0, "R %s length %d %d %d %d 0 0" % (dev, ctor, s, e, st)))
+        for op in rmap:
+            for ts, ti in rtiles:
                 for r in rng:
-                    items.append("R %s %s %d %d %d %d %d %d" % ((dev, op) + r + (ts, ti)))
-        for op in RANGE_RED_OPS:
+                    kc = len(set(clamp_tiles(ts, ti, n) for n in ns_by_variant[variant(r)] if n))
+                    items.append((("R", dev, op, ts, ti, variant(r)), kc, "R %s %s %d %d %d %d %d %d" % ((dev, op) + r + (ts, ti))))
+        for op in rred:
             for r in rng:
                 if op in NEED_NONEMPTY and not range_values(*r):
                     continue
-                items.append("R %s %s %d %d %d %d 0 0" % ((dev, op) + r))
+                items.append((("R", dev, op, variant(r)), 1, "R %s %s %d %d %d %d 0 0" % ((dev, op) + r)))
         # slices: every (offset, count) of every length, one nested slice level
         slens = [1, 2, 3, 4] if quick else [1, 2, 3, 4, 5, 6]
         for n in slens:
             for off in range(0, n + 1):
                 for cnt in [-1] + list(range(0, n - off + 1)):
                     m = (n - off) if cnt < 0 else cnt
-                    items.append("S %s %d 0 %d %d -1 0" % (dev, n, off, cnt))
+                    items.append((("S", dev), 9, "S %s %d 0 %d %d -1 0" % (dev, n, off, cnt)))
                     if quick and n > 3:
                         continue
                     for off2 in range(0, m + 1):
                         for cnt2 in [-1] + list(range(0, m - off2 + 1)):
-                            items.append("S %s %d 1 %d %d %d %d" % (dev, n, off, cnt, off2, cnt2))
+                            items.append((("S", dev), 9, "S %s %d 1 %d %d %d %d" % (dev, n, off, cnt, off2, cnt2)))
         clens = [0, 1, 2, 3] if quick else [0, 1, 2, 3, 4, 5]
         for la in clens:
             for lb in clens:
                 for pa, pb in ((0, 1), (2, 0)):
-                    items.append("C %s %d %d %d %d" % (dev, la, pa, lb, pb))
+                    items.append((("S", dev), 9, "C %s %d %d %d %d" % (dev, la, pa, lb, pb)))
         items += gen_forloops(dev, quick)
     return items
 
 
 def gen_forloops(dev, quick):
-    """all loop nests of <= 2 outer x <= 2 inner iterations (quick: <= 1 inner) over the iteration kinds
-    {int N, range, array of indices, tiled iteration}; per nest structure several value assignments."""
-    # kernel structure = kind (+ start zero / step +-1 classes, tile size); values are kernel arguments
+    """all loop nests of <= 2 outer x <= 2 inner iterations over the iteration kinds {int N, range, array of
+    indices, tiled iteration}; every nest structure (= one JIT kernel: the kind, start == 0 and step == +-1 are
+    compile-time, everything else is a kernel argument) is run with 2-3 value assignments including empty ones.
+    quick: 5 outer x 3 inner kinds, <= 1 inner (OpenMP: 1 outer); thorough: 6 outer kinds in pairs + 6 more as
+    single outer loops, 4 inner kinds, <= 2 inner (OpenMP: <= 1 inner)."""
+    omp = dev == "O"
     if quick:
         outer_kinds = {
             "N": ["N3", "N0"],
-            "R": ["R1:6:2", "R-2:-2:3"],          # start != 0, step other (+)
-            "Rneg": ["R4:-3:-3", "R2:3:-1"],      # negative step
+            "Rneg": ["R4:-3:-3", "R2:3:-1"],      # start != 0, negative step (kernel argument)
             "A": ["A4,-1,2", "A"],
             "TN": ["T2/N3", "T2/N4"],
+            "T2A": ["T2/A2,0,1", "T2/A7"],
         }
+        single_only = {}
         inner_kinds = {
             "N": ["N2"],
-            "Rneg": ["R3:0:-1"],
+            "R": ["R-1:4:2"],                      # start != 0, positive step (kernel argument)
             "A": ["A0,5"],
         }
-        max_inner = 1
+        max_outer, max_inner = (1 if omp else 2), 1
     else:
         outer_kinds = {
             "N": ["N3", "N0", "N1"],
-            "Nneg": ["N-2"],
             "R": ["R1:6:2", "R-2:-2:3", "R-3:4:3"],
-            "R0": ["R0:5:2", "R0:0:2"],
             "Rneg": ["R4:-3:-3", "R2:3:-2", "R6:-3:-2"],
-            "Rm1": ["R3:-2:-1", "R0:3:-1"],
-            "r": ["r2:5", "r5:2", "r1:1"],
             "A": ["A4,-1,2", "A", "A3"],
             "TN": ["T2/N3", "T2/N4", "T2/N0"],
+            "T2A": ["T2/A2,0,1", "T2/A7"],
+        }
+        single_only = {
+            "Nneg": ["N-2"],
+            "R0": ["R0:5:2", "R0:0:2"],
+            "Rm1": ["R3:-2:-1", "R0:3:-1"],
+            "r": ["r2:5", "r5:2", "r1:1"],
             "T3R": ["T3/R-3:5:2", "T3/R1:2:2"],
             "T2Rneg": ["T2/R5:-2:-2"],
-            "T2A": ["T2/A2,0,1", "T2/A7"],
         }
         inner_kinds = {
             "N": ["N2", "N1"],
@@ -164,23 +210,27 @@ def gen_forloops(dev, quick):
             "Rneg": ["R3:0:-1", "R5:-1:-3"],
             "A": ["A0,5", "A2"],
         }
-        max_inner = 2
+        max_outer, max_inner = 2, (1 if omp else 2)
     ok = list(outer_kinds)
     ik = list(inner_kinds)
-    outs = [(a,) for a in ok] + [(a, b) for a in ok for b in ok]
+    allk = dict(outer_kinds)
+    allk.update(single_only)
+    outs = [(a,) for a in ok] + [(a,) for a in single_only]
+    if max_outer > 1:
+        # OKL forbids an @outer loop inside an @inner loop: a tiled iteration (= @outer + @inner) can only be
+        # followed by another tiled iteration (forLoop::tile(a, b)); a plain iteration may precede a tiled one
+        outs += [(a, b) for a in ok for b in ok if not (a.startswith("T") and not b.startswith("T"))]
     inns = [()] + [(a,) for a in ik]
     if max_inner > 1:
         inns += [(a, b) for a in ik for b in ik]
     items = []
     for o in outs:
         for i in inns:
-            # value assignments: position k of every kind list together (cyclic), so each structure is run with
-            # 2-3 different argument sets including the empty ones
-            nv = max([len(outer_kinds[k]) for k in o] + [len(inner_kinds[k]) for k in i])
+            nv = max([len(allk[k]) for k in o] + [len(inner_kinds[k]) for k in i])
             for v in range(nv):
-                os_ = "+".join(outer_kinds[k][v % len(outer_kinds[k])] for k in o)
+                os_ = "+".join(allk[k][v % len(allk[k])] for k in o)
                 is_ = "+".join(inner_kinds[k][v % len(inner_kinds[k])] for k in i) if i else "-"
-                items.append("F %s %s %s" % (dev, os_, is_))
+                items.append((("F", dev, o, i), 1, "F %s %s %s" % (dev, os_, is_)))
     return items
 
 
@@ -198,7 +248,12 @@ def item_info(line):
         info.update(op=op, empty=(not range_values(ctor, s, e, st)), tiled=(ts > 0))
         info["twin_tile"] = " ".join(f[:7] + ["0", "0"])
     elif fam == "S":
+        n, off, cnt, off2, cnt2 = int(f[2]), int(f[4]), int(f[5]), int(f[6]), int(f[7])
+        m = (n - off) if cnt < 0 else cnt
+        if off2 >= 0:
+            m = (m - off2) if cnt2 < 0 else cnt2
         info["op"] = "slice"
+        info["empty"] = m == 0
     elif fam == "C":
         info["op"] = "concat"
         info["empty"] = int(f[2]) == 0 or int(f[4]) == 0
@@ -246,27 +301,65 @@ def observe(r):
     return fails, oks
 
 
-def run_all(c, exe, items, env, workdir, deadline):
-    chunk = max(8, min(60, len(items) // (NCPU * 6) or 8))
-    res, complete = batch.run_items([exe], items, workdir, env, chunk=chunk, per_item_timeout=90.0, deadline=deadline)
-    by_index = {r.index: r for r in res}
-    # a time-out under machine load is not a verdict: re-run such an item alone with a long limit
-    for r in res:
-        if r.crash == "timeout":
-            rr, _ = batch.run_items([exe], [items[r.index]], os.path.join(workdir, "retry%d" % r.index), env,
-                                    chunk=1, per_item_timeout=600.0)
-            rr[0].index = r.index
-            by_index[r.index] = rr[0]
-    return by_index, complete
+def run_all(c, exe, gitems, env, workdir, deadline, nbins=None):
+    """gitems: (kernel group, estimated JIT builds, line).  Groups are spread over bins (longest-processing-time
+    first, deterministic); each bin is executed by consecutive driver processes, so the users of one kernel share a
+    process (in-memory kernel) and everything shares one on-disk kernel cache.  Results are keyed by the item index:
+    the verdicts do not depend on the binning."""
+    from concurrent.futures import ThreadPoolExecutor
+    nbins = nbins or max(2, NCPU * 2)
+    groups, order = {}, []
+    for i, (g, kc, line) in enumerate(gitems):
+        if g not in groups:
+            groups[g] = [kc, []]
+            order.append(g)
+        groups[g][1].append(i)
+    cost = lambda g: groups[g][0] * 1.0 + len(groups[g][1]) * 0.004
+    bins = [[] for _ in range(nbins)]
+    load = [0.0] * nbins
+    for g in sorted(order, key=lambda g: -cost(g)):
+        k = load.index(min(load))
+        bins[k].extend(groups[g][1])
+        load[k] += cost(g)
+    lines = [x[2] for x in gitems]
+    by_index = {}
+    complete = [True]
+
+    def work(k):
+        idxs = bins[k]
+        if not idxs:
+            return
+        sub = [lines[i] for i in idxs]
+        chunk = max(1, -(-len(sub) // 3))
+        res, comp = batch.run_items([exe], sub, os.path.join(workdir, "bin%02d" % k), env, chunk=chunk, workers=1,
+                                    per_item_timeout=max(3.0, 600.0 / chunk), deadline=deadline)
+        if not comp:
+            complete[0] = False
+        for r in res:
+            # a chunk time-out (>= 600 s) under machine load is not a verdict: re-run the blamed item alone (150 s for one item)
+            if r.crash == "timeout":
+                rr, _ = batch.run_items([exe], [sub[r.index]], os.path.join(workdir, "bin%02d-retry%d" % (k, r.index)), env,
+                                        chunk=1, workers=1, per_item_timeout=150.0)
+                rr[0].index = r.index
+                r = rr[0]
+            by_index[idxs[r.index]] = r
+
+    with ThreadPoolExecutor(max_workers=min(nbins, NCPU)) as ex:
+        list(ex.map(work, range(nbins)))
+    return by_index, complete[0]
 
 
 def main():
     c = Check("C23", "exploration")
     c.build("rel")
-    san = ["-fsanitize=address,undefined", "-fno-sanitize-recover=undefined", "-fno-omit-frame-pointer"]
-    exe = c.compile(os.path.join(HERE, "driver.cpp"), "driver", variant="rel", extra=san)
+    san = ["-fsanitize=undefined", "-fno-sanitize-recover=undefined"]
+    exe = c.compile(os.path.join(HERE, "driver.cpp"), "driver", variant="rel", extra=san, opt="-O0")
+    # HOME is private as well: a process of this check that lost OCCA_CACHE_DIR would create $HOME/.occa there
+    # (guarded below) instead of /root/.occa, which other checks running on the machine may also touch
+    home = os.path.join(c.scratch, "home")
+    os.makedirs(home, exist_ok=True)
     env = san_env(c.scratch, {"C23_KFLAGS": KFLAGS, "OMP_NUM_THREADS": "3", "OMP_DYNAMIC": "false",
-                              "OCCA_CXX": "g++"})
+                              "OCCA_CXX": "g++", "HOME": home})
 
     if c.args.replay:
         r = load_replay(c.args.replay)
@@ -278,9 +371,10 @@ def main():
         bad = p.returncode != 0 or any(l.startswith(("fail ", "exc ")) for l in p.stdout.split("\n"))
         sys.exit(1 if bad else 0)
 
-    items = gen_items(c.tier)
+    gitems = gen_items(c.tier)
+    items = [x[2] for x in gitems]
     deadline = c.t0 + c.budget(600, 3000)
-    by_index, complete = run_all(c, exe, items, env, os.path.join(c.scratch, "run"), deadline)
+    by_index, complete = run_all(c, exe, gitems, env, os.path.join(c.scratch, "run"), deadline)
 
     status = {}          # item line -> bool passed
     outcomes = set()
@@ -300,27 +394,46 @@ def main():
             outcomes.add(fam + " " + s[:80])
         results.append((line, fails, oks))
 
+    # signatures: <family>.<operation class>:<oracle clause>[:situation tags]:<operation>
+    #   situation tags come from the reference side / from twin items: 'empty' (zero-length operand),
+    #   'tiling-dependent' (the same item passes with the default tile configuration), 'openmp-only' (the same item
+    #   passes on Serial); an OpenMP item whose Serial twin fails the same clause is the same defect and gets the
+    #   Serial item's signature.
+    def op_class(info):
+        fam, op = info["fam"], info["op"]
+        if fam in ("A", "D"):
+            return "map" if op in MAP_OPS or op in DBL_MAP_OPS else "reduce"
+        if fam == "R":
+            return "length" if op == "length" else "map" if op in RANGE_MAP_OPS else "reduce"
+        return op
+
+    fails_of = dict((line, fails) for line, fails, oks in results if fails)
+
+    def signature(line, clause):
+        info = item_info(line)
+        twin = info["twin_dev"]
+        if twin and any(cl == clause for cl, _ in fails_of.get(twin, [])):
+            return signature(twin, clause)
+        tags = []
+        if info["empty"]:
+            tags.append("empty")
+        if info["tiled"] and info["twin_tile"] and status.get(info["twin_tile"]) is True:
+            tags.append("tiling-dependent")
+        if twin and status.get(twin) is True:
+            tags.append("openmp-only")
+        cl = clause[len(info["op"]) + 1:] if clause.startswith(info["op"] + ":") else clause
+        return ":".join(["%s.%s" % (info["fam"], op_class(info)), cl] + tags + [info["op"]])
+
     nviol_items = 0
     sig_counts = {}
     for line, fails, oks in results:
         if not fails:
             continue
         nviol_items += 1
-        info = item_info(line)
         for clause, detail in fails:
             if clause.startswith("harness:"):
                 c.harness_error("driver reported %s for item '%s': %s" % (clause, line, detail))
-            tags = []
-            if info["empty"]:
-                tags.append("empty")
-            if info["tiled"] and info["twin_tile"] and status.get(info["twin_tile"]) is True:
-                tags.append("tiling-dependent")
-            if info["twin_dev"] and status.get(info["twin_dev"]) is True:
-                tags.append("openmp-only")
-            sig = "%s.%s:%s" % (info["fam"], info["op"], clause) if not clause.startswith(info["op"]) \
-                else "%s.%s" % (info["fam"], clause)
-            if tags:
-                sig += ":" + ":".join(tags)
+            sig = signature(line, clause)
             sig_counts[sig] = sig_counts.get(sig, 0) + 1
             if sig_counts[sig] <= 40:
                 c.violation(sig, "%s => %s" % (line, detail[:400]), {"item": line, "kflags": KFLAGS, "libocca": "rel"})
@@ -332,9 +445,9 @@ def main():
         exe2 = c.compile(os.path.join(HERE, "driver.cpp"), "driver-asan", variant="asan")
         sub = [l for l in items if l.split()[1] == "S" and (
             (l[0] == "A" and l.split()[3] in ("0", "3") and l.split()[4] == "1" and l.split()[5:7] in (["0", "0"], ["2", "3"]))
-            or (l[0] == "F" and l.count("+") == 0))][:400]
-        env2 = san_env(os.path.join(c.scratch, "asanrun"), {"C23_KFLAGS": KFLAGS, "OMP_NUM_THREADS": "3", "OCCA_CXX": "g++"})
-        bi2, _ = run_all(c, exe2, sub, env2, os.path.join(c.scratch, "asanrun"), deadline + 600)
+            or (l[0] == "F" and l.count("+") == 0 and l.split()[3] == "-"))][:400]
+        env2 = san_env(os.path.join(c.scratch, "asanrun"), {"C23_KFLAGS": KFLAGS, "OMP_NUM_THREADS": "3", "OCCA_CXX": "g++", "HOME": home})
+        bi2, _ = run_all(c, exe2, [(l.split()[2], 1, l) for l in sub], env2, os.path.join(c.scratch, "asanrun"), deadline + 600)
         for i, line in enumerate(sub):
             r = bi2.get(i)
             if r is None:
@@ -346,11 +459,11 @@ def main():
             for clause, detail in fails:
                 if status.get(line) is False:
                     continue     # already reported from the rel run
-                sig = "asan-lib:%s.%s:%s" % (info["fam"], info["op"], clause)
+                sig = "asan-lib:%s.%s:%s:%s" % (info["fam"], op_class(info), clause, info["op"])
                 c.violation(sig, "%s => %s" % (line, detail[:400]), {"item": line, "kflags": KFLAGS, "libocca": "asan"})
 
-    if os.path.exists("/root/.occa"):
-        c.harness_error("/root/.occa appeared: a process ran without OCCA_CACHE_DIR")
+    if os.path.exists(os.path.join(home, ".occa")):
+        c.harness_error("$HOME/.occa appeared in the private home: a process of this check ran without OCCA_CACHE_DIR")
 
     # vacuity guards
     def seen(prefix):
@@ -364,8 +477,9 @@ def main():
         ft = [o for o in outcomes if o.startswith("F forloop tuples=")]
         c.vacuity(len(ft) >= 4, "forLoop nests with at least 4 different tuple counts must have run (saw %s)" % ft)
         c.vacuity(any(int(o.split("=")[1]) >= 20 for o in ft) or nviol_items > 0, "a forLoop nest with >= 20 tuples must have run")
-        c.vacuity(len(seen("R toarray ")) >= 10, "at least 10 distinct range contents must be observed")
+        c.vacuity(len(seen("R map ")) >= 10, "at least 10 distinct range contents must be observed")
         c.vacuity(per_family.get("S", 0) > 20 and per_family.get("C", 0) > 10, "slices and concats must have run")
+        c.vacuity(any(o.startswith("S slice:fill-parent") for o in outcomes), "a write through a slice must have been observed in the parent")
     ncache = 0
     cdir = os.path.join(env["OCCA_CACHE_DIR"], "cache")
     if os.path.isdir(cdir):
@@ -383,11 +497,16 @@ def main():
         items=len(items), items_run=len(results), items_failing=nviol_items,
         items_per_family=per_family, jit_cache_entries=ncache, asan_libocca_items=asan_items,
         distinct_violation_signatures=len(sig_counts), signature_counts=sig_counts,
-        bound=("lengths 0..5, tile configs {default,(2,2)}, ranges of length <= 5 over start,end in [-3,6] step in +-{1,2,3}, "
-               "forLoop <= 2 outer x <= 1 inner" if c.tier == "quick" else
-               "lengths 0..9,16,17, tile size 1..4 x tile iterations 1..3 (+default, +one-argument setTileSize), all ranges over "
-               "start,end in [-3,6] step in +-{1,2,3} and the 1-/2-argument constructors, forLoop <= 2 outer x <= 2 inner"),
-        variants="libocca rel; driver (header templates under test) with -fsanitize=address,undefined; JIT kernels %s; "
+        bound=("Serial: lengths 0..5 (+129,300 for reductions and findIndex/some), 3 patterns, tile configs {default,(2,2)}, ranges of "
+               "length <= 5 over start,end in [-3,6] step in +-{1,2,3} and the 1-/2-argument constructors, all slices of lengths 1..4 "
+               "(nested for <= 3), concat 0..3 x 0..3, forLoop <= 2 outer x <= 1 inner over 5 outer / 3 inner kinds; OpenMP: lengths "
+               "{0,2,5}, tile (2,2), range ops {find,each,rsum}, forLoop 1 outer x <= 1 inner" if c.tier == "quick" else
+               "lengths 0..9,16,17 (+129,300 for reductions and findIndex/some), 3 patterns, tile size 1..4 x tile iterations 1..3 "
+               "(+default, +one-argument setTileSize(3)), all 710 ranges over start,end in [-3,6] step in +-{1,2,3} and the 1-/2-argument "
+               "constructors, all slices of lengths 1..6 with one nested level, concat 0..5 x 0..5, forLoop <= 2 outer x <= 2 inner over "
+               "6 paired + 6 single outer kinds and 4 inner kinds; OpenMP: same arrays, range tiles {default,(2,2),(3,2),(4,3)}, "
+               "forLoop <= 1 inner"),
+        variants="libocca rel; driver (header templates under test) with -fsanitize=undefined; JIT kernels %s; "
                  "OpenMP device with OMP_NUM_THREADS=3%s" % (KFLAGS, "; asan-libocca smoke subset of %d items" % asan_items if asan_items else ""),
     )
     c.assumptions += [
